@@ -56,6 +56,7 @@ STREAMS = {
     "human_bytes": "characters of log.txt and of the stdout stream after every dump == model",
     "csv_read": "read_csv(progress.csv) == model reader on the model's file (header, rows, missing cells)",
     "json_read": "json.loads of every line == model reader on the model's lines",
+    "json_frame": "read_json(progress.json) == the model reader's rows as a table, typed (a str cell stays a str, a number a number)",
     "errors": "TypeError (record_mean on a str) / ValueError (human key truncated to an existing one) == model error",
     "fmt": "str(float) and f'{x:<8.3g}' == model PyFloat (exact values)",
 }
@@ -66,6 +67,15 @@ LETTERS = list("xzkw")
 SPECIALS = ['"', ",", "\n", "\r", " ", "#", "'", ";", "\t", "\\", ":", "{", "}", "/", ".", "|", "-"]
 FORMATS = ["csv", "json", "log", "stdout"]
 EXCL_NAMES = ["csv", "json", "log", "stdout", "tensorboard"]
+# strings that LOOK like numbers / NA / booleans / nothing: json.loads keeps them strings, so read_json must too
+# (for read_csv they are outside the claimed domain - pandas' type inference reinterprets quoted text - hence such a
+# key is always excluded for "csv")
+NUMLIKE = ["007", "1e3", "1", "nan", "inf", "-5", "3.14", "0", "NaN", "-inf", "1E5", "0.5", "123456789", "Infinity",
+           "true", "null", "", " 12", "1_000", "0x1F", "-0", "1600000000"]
+# key names that date heuristics of table readers pick up; recorded with epoch-range integers (s / ms / us)
+DATE_KEYS = ["timestamp", "timestamp_ms", "time/created_at", "saved_at", "modified", "date", "datetime", "date_start",
+             "train/update_time", "eval/start_time"]
+SUBNORMALS = [5e-324, 1e-320, 2.5e-310, -1e-315, 1e-310, -5e-324, 3e-323]
 KEY_POOL = [
     "loss", "k0", "fps", "n_updates", "lr", "a", "b", "value_loss", "x.y", "ep len",
     "rollout/ep_rew_mean", "rollout/ep_len_mean", "train/loss", "train/learning_rate", "train/n_updates",
@@ -157,8 +167,16 @@ def gen_num_rat(rng):
     return {"t": k, "h": gen_dyadic(rng).hex()}
 
 
+def gen_epoch(rng):
+    sec = rng.randint(10**9, 2 * 10**9)
+    u = rng.weighted([("s", 3), ("ms", 2), ("us", 1)])
+    return sec if u == "s" else sec * 1000 + rng.randint(0, 999) if u == "ms" else sec * 10**6 + rng.randint(0, 999999)
+
+
 def gen_float_any(rng):
-    k = rng.randint(0, 5)
+    k = rng.randint(0, 6)
+    if k == 6:  # subnormal doubles (short decimal text)
+        return rng.choice(SUBNORMALS) if rng.chance(0.7) else float(rng.randint(1, 999)) * 10.0 ** -rng.randint(310, 321)
     if k == 0:
         return rng.random()
     if k == 1:
@@ -220,11 +238,26 @@ def gen_log_case(rng, mode, widen):
     if rng.chance(0.8) and "csv" not in fm:
         fm[rng.randint(0, len(fm) - 1)] = "csv"
     max_length = rng.weighted([(36, 6), (20, 1), (12, 1), (10, 1), (8, 1)])
+    if rng.chance(0.3):
+        dk = rng.choice(DATE_KEYS)
+        if dk not in keys:
+            keys[rng.randint(0, len(keys) - 1)] = dk
     ktype = {k: rng.weighted([("str", 5 if not widen else 9), ("num", 6)]) for k in keys}
+    for k in keys:
+        if k in DATE_KEYS:
+            ktype[k] = "epoch"
+    plain = [k for k in keys if k not in DATE_KEYS]
+    if plain and rng.chance(0.35):
+        ktype[rng.choice(plain)] = "numstr"
     first = {k: rng.randint(0, ndumps - 1) if rng.chance(0.6) else 0 for k in keys}
     if rng.chance(0.95):
         first[keys[0]] = 0
     kexcl = {k: gen_excl(rng) for k in keys}
+    for k in keys:
+        if ktype[k] == "numstr":  # never through the CSV reader (outside its claimed domain), always through JSON
+            kexcl[k] = rng.choice(["csv", ["csv"], ["csv", "tensorboard"], ["csv", "log"], ["csv", "stdout", "log"]])
+        elif ktype[k] == "epoch" and rng.chance(0.7):
+            kexcl[k] = rng.choice([None, None, "csv", "tensorboard", ["stdout", "log"]])
     ops = []
     for d in range(ndumps):
         active = [k for k in keys if first[k] <= d and rng.chance(0.75)]
@@ -234,10 +267,11 @@ def gen_log_case(rng, mode, widen):
         # float-exactness simulation of the pending numbers of this segment (mode rat)
         simf, simq, simc, isstr = {}, {}, {}, {}
         for k in active:
-            ty = ktype[k] if rng.chance(0.9) else rng.choice(["str", "num"])
-            ex = kexcl[k] if rng.chance(0.85) else gen_excl(rng)
+            special = ktype[k] in ("numstr", "epoch")
+            ty = ktype[k] if special or rng.chance(0.9) else rng.choice(["str", "num"])
+            ex = kexcl[k] if ty == "numstr" or rng.chance(0.85) else gen_excl(rng)
             how = rng.weighted([("r", 10), ("rr", 1), ("m", 4 if ty == "num" else 0), ("mix", 1 if ty == "num" else 0),
-                                ("m_on_str", 0.15 if mode == "rat" else 0.05)])
+                                ("m_on_str", 0 if special else 0.15 if mode == "rat" else 0.05)])
             seq = {"r": ["r"], "rr": ["r", "r"], "m": ["m"] * rng.randint(1, 4),
                    "mix": [rng.choice(["r", "m"]) for _ in range(rng.randint(2, 4))], "m_on_str": ["rs", "m"]}[how]
             if how == "m" and rng.chance(0.15):
@@ -245,10 +279,14 @@ def gen_log_case(rng, mode, widen):
             ex0 = ex
             for o in seq:
                 # a repeated record / record_mean may change the exclusions: the last call decides
-                ex = ex0 if rng.chance(0.8) else gen_excl(rng)
+                ex = ex0 if ty == "numstr" or rng.chance(0.8) else gen_excl(rng)
                 if o == "r" or o == "rs":
-                    if ty == "str" or o == "rs":
+                    if ty == "numstr":
+                        v = {"t": "str", "v": rng.choice(NUMLIKE)}
+                    elif ty == "str" or o == "rs":
                         v = {"t": "str", "v": gen_str(rng)}
+                    elif ty == "epoch" and rng.chance(0.85):
+                        v = {"t": "int" if mode == "rat" or rng.chance(0.6) else "i64", "v": gen_epoch(rng)}
                     else:
                         v = gen_num_rat(rng) if mode == "rat" else gen_num_tok(rng)
                     ops.append(["r", k, v, ex])
@@ -549,6 +587,8 @@ def human_value_ok(v, txt):
             return False
         if v == 0 or not math.isfinite(v):
             return g == v or (v != v and g != g)
+        if abs(v) < 1e-290:  # 10**(e-2) underflows; subnormal spacing is coarse
+            return abs(g - v) <= 0.0051 * abs(v) + 1e-323
         e = math.floor(math.log10(abs(v)))
         return abs(g - v) <= 0.5000001 * 10.0 ** (e - 2) + abs(v) * 1e-12
     return None  # exact text comparison is done by the caller
@@ -883,6 +923,30 @@ def frame_vs_model(df, mt):
     return None
 
 
+def json_frame_vs_model(df, mt):
+    """frame of read_json against the model reader's rows (strict on types); None = equal"""
+    if df["cols"] != mt["header"]:
+        return f"columns {df['cols']} vs {mt['header']}"
+    if len(df["rows"]) != len(mt["rows"]):
+        return f"{len(df['rows'])} rows vs {len(mt['rows'])}"
+    for r, (a, b) in enumerate(zip(df["rows"], mt["rows"])):
+        for j, (x, y) in enumerate(zip(a, b)):
+            if y is None:
+                ok = is_missing(x)
+            elif y[0] == "s":
+                ok = isinstance(x, str) and x == y[1]
+            else:
+                ok = False
+                if isinstance(x, (int, float, np.integer, np.floating)) and not isinstance(x, (bool, np.bool_)):
+                    try:
+                        ok = float(x) == float(y[1])
+                    except (ValueError, OverflowError):
+                        ok = False
+            if not ok:
+                return f"row {r} col {j}: {x!r} vs {y!r}"
+    return None
+
+
 def compare(ctx, case, obs, outs):
     rep = ctx.report
     ops, tags = model_ops(case, obs)
@@ -979,6 +1043,19 @@ def compare(ctx, case, obs, outs):
                             bad = bad or isinstance(x, str) or not (float(x) == float(y[1]) or (x != x))
             if bad:
                 dis("json_read", impl_rows, mj)
+                return
+            rep.agree()
+            # the table the library's reader returns == the model's rows laid out as a table (typed: str stays str)
+            cols = []
+            for row in mj:
+                for k, _ in row:
+                    if k not in cols:
+                        cols.append(k)
+            mt = {"header": cols, "rows": [[dict((k, v) for k, v in row).get(c) for c in cols] for row in mj]}
+            df = o["json_df"]
+            why = "read_json raised " + str(df.get("error")) if "error" in df else json_frame_vs_model(df, mt)
+            if why is not None:
+                dis("json_frame", df if "error" in df else {"cols": df["cols"], "rows": repr(df["rows"])}, mt, why)
                 return
             rep.agree()
 
